@@ -7,7 +7,10 @@
      tree_to_operations    temporaries, can_inject, renumbering, fold_constants
    Python object identity is modelled explicitly: a TemporaryVariable object is its creation
    index (NTemp i), the final renaming is a map on indices.
-   Not modelled: `{command}` operands (CommandNumber), `:`/`::`/`[...]` tokens, float literals. *)
+   An `objective:selector[...]` operand is ONE token (KVarT) carrying the selector as written; its
+   score is `score_of` = the CLEANED text, which is what the merge of KEYWORD, `:` and the PAREN_SQUARE
+   token (merge_tokens -> clean_up_paren_token) leaves in Variable.content (ExprSpec.clean_sel).
+   Not modelled: `{command}` operands (CommandNumber), `::` tokens, float literals. *)
 From Coq Require Import ZArith String List Bool.
 From JMCV Require Import Base.Int32 Base.Dec MC.Syntax Model.Names Model.Expr Model.ExprSpec.
 Import ListNotations.
